@@ -147,8 +147,18 @@ func main() {
 	explain := flag.String("explain", "", "replay file to explain")
 	list := flag.Bool("list", false, "list obligations")
 	dump := flag.String("dump", "", "developer aid: print the SSA of the functions whose key has this prefix")
+	paramTable := flag.Bool("paramtable", false, "developer aid: print the table of parameter names by position (internal/eng/paramnames_gen.go)")
 	flag.Parse()
 
+	if *paramTable {
+		p, err := eng.Load(eng.LoadOptions{Dir: *repo})
+		if err != nil {
+			fmt.Println(err)
+			os.Exit(2)
+		}
+		fmt.Print(eng.ParamTableSource(p))
+		os.Exit(0)
+	}
 	if *dump != "" {
 		p, err := eng.Load(eng.LoadOptions{Dir: *repo})
 		if err != nil {
